@@ -12,7 +12,7 @@ CLAUSES = {
     "stage-positions-clipped": "lemma 1: the first stage samples at the particle position, every later RK stage inside [xmin + 0.01, xmax - 0.01] x [ymin + 0.01, ymax - 0.01], whatever the velocities",
 }
 BOUNDS = {
-    "quick": "global 6x6 grid, subgrids {full, [1,5,2,5]}, N in {2, 3} levels, 1 particle anywhere in the valid region, any depth (above surface .. below bottom), stage velocities any real (any magnitude), dt = 600 s, EF/RK2/RK4",
+    "quick": "global 6x6 grid, subgrids {full, [1,5,2,5]}, N in {2, 3} levels, 1 particle anywhere in the valid region (also after another particle was removed between forcing and tracking), any depth (above surface .. below bottom), stage velocities any real (any magnitude), dt = 600 s, EF/RK2/RK4",
     "thorough": "7x6 grid, 3 subgrids, N 2..4, plus scalar (nearest) sampling",
 }
 ASSUMES = ["composition of the two lemmas (stage positions are in the box; any position in the box is safe to sample) is an argument, not a machine-checked step", "field values are irrelevant for index arithmetic: the forcing file holds zeros and the velocities handed to the tracker are fresh symbols of any magnitude",
@@ -31,7 +31,7 @@ def scenarios(tier):
             out.append(dict(name=f"stages-{adv}-sub{'full' if sub is None else '_'.join(map(str, sub))}", fn="stages", params=dict(adv=adv, sub=sub, L=L, M=M), cost=5))
     for sub in subs:
         for N in ((2, 3) if q else (2, 3, 4)):
-            for mode in ("own", "query"):
+            for mode in ("own", "query", "shrunk"):
                 out.append(dict(name=f"kernel-{mode}-sub{'full' if sub is None else '_'.join(map(str, sub))}-N{N}", fn="kernel", params=dict(sub=sub, N=N, L=L, M=M, mode=mode), cost=20))
     return out
 
@@ -88,13 +88,25 @@ def kernel(W, p):
         cx, cy = grid.i0 + 1, grid.j0 + 1
         W.assume(W.all([W.lt(cx - W.frac(2, 5), x), W.lt(x, cx + W.frac(2, 5)), W.lt(cy - W.frac(2, 5), y), W.lt(y, cy + W.frac(2, 5))]), "query scenarios: the particle's own cell is pinned (K, A stay symbolic through the depth)")
     z = W.real("z", -50, 500)
+    if p["mode"] == "shrunk":
+        # another particle goes first and is removed between Forcing.update() and the tracker's velocity() calls
+        # (the sparse writer compactifies in between): the level indices are recomputed for the survivors
+        S.append(X=grid.i0 + 1 + W.frac(1, 4), Y=grid.j0 + 1 + W.frac(1, 4), Z=W.real("z_gone", -50, 500))
     S.append(X=x, Y=y, Z=z)
     mods = dict(time=timer, grid=grid, state=S)
     F = roms.Forcing(mods, str(tmp / "ocean.nc"), extra_forcing=["temp"])
     timer.update()
     F.update()  # z2s + nearest + bilinear sampling at the particle position
-    k = W.idx(W.tolist(F.K)[0])
+    k = W.idx(W.tolist(F.K)[-1])
     W.prove(1 <= k <= N - 1, "index-in-range", dict(K=k, N=N))
+    if p["mode"] == "shrunk":
+        S.alive[0] = False
+        S.compactify()
+        for frac in (0, W.frac(1, 2)):
+            F.velocity(S.X, S.Y, S.Z, fractional_step=frac)
+        k2 = W.idx(W.tolist(F.K)[0])
+        W.prove(len(F.K) == 1 and 1 <= k2 <= N - 1, "index-in-range", dict(K=k2, N=N, note="after the state shrank"))
+        return ("shrunk", N, k2)
     if p["mode"] == "own":
         return ("own", N, k)
     xq = W.real("xq", grid.xmin + W.frac(1, 100), grid.xmax - W.frac(1, 100))
